@@ -23,6 +23,16 @@ static struct aws_allocator *A;
 /* ------------------------------------------------------------------ plumbing ------------------------------ */
 static uint8_t g_compact[200]; /* first bytes of the last compact text emitted (for classification / samples) */
 static size_t g_compact_len;
+/* aws_json_value_compare takes time exponential in the number of nested OBJECT levels (see section cmpcost, which reports
+ * it once): beyond 16 object levels the deep section leaves compare out and counts that, everything else is still checked */
+static bool g_skip_compare;
+static bool do_compare(const struct aws_json_value *a, const struct aws_json_value *b, bool cs) {
+    if (g_skip_compare) {
+        V_COUNT("compares_left_out_deep_objects", 1);
+        return true;
+    }
+    return aws_json_value_compare(a, b, cs);
+}
 
 static struct aws_json_value *parse_text(const uint8_t *p, size_t n) {
     uint8_t *blk = bee_block(p, n); /* exact size, no terminator: an over-read is an ASan report */
@@ -81,7 +91,7 @@ static struct aws_json_value *api_build(int r, bool *case_refusal) {
             if (twin) {
                 *case_refusal = true;
                 V_COUNT("adds_refused_for_case_twin", 1);
-                bee_fail("add-refused-key-differs-only-in-case",
+                if (j_report_case_twins) bee_fail("add-refused-key-differs-only-in-case",
                          "add_to_object(<%s>) refused although no member has that name: an earlier member's name differs only in case (json.h: names are case sensitive)",
                          v_show(rs + rn[c].k_off, rn[c].k_len));
             } else {
@@ -131,7 +141,7 @@ static void roundtrip(const struct aws_json_value *v, int r, const char *what) {
                 JERR("reparse-failed", "%s: aws_json_value_new_from_string rejects the text the serialiser emitted: %s", stage, v_show(out.buffer, out.len > 120 ? 120 : out.len));
             } else {
                 j_walk(b, r, stage, true);
-                if (!r_failed && !(aws_json_value_compare(v, b, true) && aws_json_value_compare(b, v, true)))
+                if (!r_failed && !(do_compare(v, b, true) && do_compare(b, v, true)))
                     JERR("compare-after-roundtrip", "%s: aws_json_value_compare(original, re-parsed) is false: %s", stage, v_show(out.buffer, out.len > 120 ? 120 : out.len));
                 aws_json_value_destroy(b);
             }
@@ -148,8 +158,8 @@ static void check_duplicate(struct aws_json_value *v, int r, bool twins) {
         aws_json_value_destroy(v);
         return;
     }
-    if (!(aws_json_value_compare(v, d, true) && aws_json_value_compare(d, v, true))) JERR("duplicate-not-equal", "a duplicate does not compare equal to its original");
-    if (!twins && !aws_json_value_compare(v, d, false)) JERR("duplicate-not-equal", "a duplicate does not compare equal (case-insensitive flag) to its original");
+    if (!(do_compare(v, d, true) && do_compare(d, v, true))) JERR("duplicate-not-equal", "a duplicate does not compare equal to its original");
+    if (!twins && !do_compare(v, d, false)) JERR("duplicate-not-equal", "a duplicate does not compare equal (case-insensitive flag) to its original");
     aws_json_value_destroy(v); /* the duplicate must not share anything with the original */
     j_walk(d, r, "duplicate after the original was destroyed", true);
     aws_json_value_destroy(d);
@@ -201,6 +211,8 @@ static void item_begin(void) {
     galloc_reset();
     r_reset();
     g_compact_len = 0;
+    g_skip_compare = false;
+    j_report_case_twins = true;
 }
 
 /* ================================================================== section num ========================== */
@@ -612,6 +624,7 @@ static void tree_eval(uint64_t idx, void *ctx) {
             r_append(node[p], node[k]);
         }
     }
+    j_report_case_twins = s->n <= 3; /* larger trees with such names are checked the same way but only counted */
     V_COUNT("evaluations", 1);
     if (s->n >= 3) V_COUNT("nontrivial", 1);
     if (nobj) V_COUNT("trees_with_object", 1);
@@ -633,6 +646,7 @@ static void deep_eval(uint64_t idx, void *ctx) {
     item_begin();
     int depth = DEPTHS[idx / 3], kind = (int)(idx % 3);
     int root = -1, cur = -1;
+    g_skip_compare = (kind == 1 ? depth : kind == 2 ? depth / 2 : 0) > 16;
     for (int d = 0; d < depth; ++d) {
         int obj = kind == 1 || (kind == 2 && (d & 1));
         int c = r_new(obj ? R_OBJ : R_ARR);
@@ -688,6 +702,62 @@ static void deep_eval(uint64_t idx, void *ctx) {
     }
 }
 
+/* ================================================================== section cmpcost ====================== */
+/* "a duplicate compares equal to its original" must also be *answered*: cJSON_Compare walks every member of an object
+ * twice (a against b, then b against a; source/external/cJSON.c:3109-3138), recursively, so n nested objects cost 2^n
+ * comparisons and 64 nested objects do not finish.  Probe: thread CPU time of compare(original, duplicate) for 11 and for
+ * 22 nested single-member objects ({"a":{"a":...7}}).  Linear work gives a ratio of 2, the doubling gives 2048; the verdict
+ * threshold is 200.  (kind 1 = arrays instead of objects as the control: never reported, ratio printed.) */
+static double thread_cpu(void) {
+    struct timespec ts;
+    clock_gettime(CLOCK_THREAD_CPUTIME_ID, &ts);
+    return (double)ts.tv_sec + 1e-9 * (double)ts.tv_nsec;
+}
+static double cmp_cost(int depth, int obj, int reps) {
+    item_begin();
+    int root = -1, cur = -1;
+    for (int d = 0; d < depth; ++d) {
+        int c = r_new(obj ? R_OBJ : R_ARR);
+        if (cur >= 0) {
+            if (obj) r_setkey(c, "a", 1);
+            r_append(cur, c);
+        } else
+            root = c;
+        cur = c;
+    }
+    int leaf = r_num(7);
+    if (obj) r_setkey(leaf, "a", 1);
+    r_append(cur, leaf);
+    bool cr = false;
+    struct aws_json_value *v = api_build(root, &cr), *d = aws_json_value_duplicate(v);
+    double t0 = thread_cpu();
+    bool eq = true;
+    for (int i = 0; i < reps; ++i) eq &= aws_json_value_compare(v, d, true);
+    double t = (thread_cpu() - t0) / reps;
+    if (!eq) bee_fail("duplicate-not-equal", "%d nested %s: duplicate does not compare equal", depth, obj ? "objects" : "arrays");
+    aws_json_value_destroy(v);
+    aws_json_value_destroy(d);
+    return t;
+}
+static uint64_t cmpcost_total(void) { return 2; }
+static void cmpcost_eval(uint64_t idx, void *ctx) {
+    (void)ctx;
+    BEE_ITEM(idx);
+    int obj = idx == 0;
+    V_COUNT("evaluations", 1);
+    V_COUNT("nontrivial", 1);
+    double t11 = cmp_cost(11, obj, 64), t22 = cmp_cost(22, obj, 1);
+    double ratio = t22 / (t11 > 1e-9 ? t11 : 1e-9);
+    v_out("INFO cmpcost %s: compare of 11 nested = %.1f us, of 22 nested = %.1f us, ratio %.0f", obj ? "objects" : "arrays", t11 * 1e6, t22 * 1e6, ratio);
+    if (obj) {
+        V_MAXSTAT("max_compare_cost_ratio_22_vs_11_nested_objects", (uint64_t)ratio);
+        if (ratio > 200)
+            bee_fail("compare-exponential-in-object-depth",
+                     "aws_json_value_compare(original, duplicate) on 22 nested objects costs more than 200x the same call on 11 nested objects (linear work would be 2x): "
+                     "every object level doubles the work, 64 nested objects (limit is 1000) do not finish");
+    }
+}
+
 int main(int argc, char **argv) {
     v_init(argc, argv);
     v_max_samples = 16;
@@ -704,5 +774,6 @@ int main(int argc, char **argv) {
     bee_register("surrogate", surrogate_total, surrogate_eval, 20);
     bee_register("tree", tree_total, tree_eval, 20);
     bee_register("deep", deep_total, deep_eval, 60);
+    bee_register("cmpcost", cmpcost_total, cmpcost_eval, 120);
     return bee_main(argc, argv);
 }
